@@ -53,10 +53,12 @@ func runC11(c *Ctx) {
 	r.Rule("R11-hit", "a table hit ends the search of a node only when the entry is exact and its depth equals the requested depth, and never at the root; a lookup verifies the full hash of the entry it returns and indexes the slot by hash & mask", 1+4)
 	r.Rule("R11-stores", "nothing computed from a cut-short child is stored, and the interior store is exact only after the move loop ran to exhaustion (rules of C12, re-decided here)", 3)
 
+	r.Rule("R11-nested", "a leaf evaluator (QuietSearch implementation) that starts a search of its own does not hand it the caller's table: the context it passes is not the received one, and a local copy of it has its table field overwritten before the call", 1)
 	m := newSearchModel(c, "R11-exact")
 	if m == nil {
 		return
 	}
+	c.guard("R11-nested", func() { c11Nested(c, m) })
 	rec := recursiveSearchFuncs(c, m)
 	m.children = map[*ssa.Function]bool{}
 	for _, f := range rec {
